@@ -684,7 +684,7 @@ PROPS["C10"] = dict(
           desc="the board of the position reached by State::by_performing_move answers colored_attacks / colored_pawn_attacks / is_check exactly as a "
           "board built from scratch from the successor's placement, whatever had been asked of (and cached in) the parent before the move",
           functions=["State::by_performing_move", "Board::{new,attack_map,colored_attacks,colored_pawn_attacks,is_check}"], timeout=3600, heavy=True, mem_gb=24),
-        K("c10", "c10_successor_answers_are_fresh_3", kind="bounded", bound="<= 3 pieces per kind and colour; spike attack function; every move class", tier="experimental",
+        K("c10", "c10_successor_answers_are_fresh_3", kind="bounded", bound="<= 3 pieces per kind and colour; spike attack function; every move class", tier="thorough",
           unwindset_rules=[("from_occupancy", r"occupancy\.pop\(\)", 5, 0)],
           desc="same as c10_successor_answers_are_fresh with up to three pieces per kind and colour",
           functions=["State::by_performing_move", "Board::{new,attack_map,colored_attacks,colored_pawn_attacks,is_check}"], timeout=3600, heavy=True, mem_gb=24),
